@@ -14,6 +14,7 @@ from tabulate import tabulate
 
 from glotaran.io import load_parameters
 from glotaran.parameter.parameter import Parameter
+from glotaran.utils.helpers import nan_or_equal
 from glotaran.utils.ipython import MarkdownStr
 from glotaran.utils.sanitize import pretty_format_numerical
 
@@ -315,15 +316,23 @@ class Parameters:
         ValueError
             Raised if an expression evaluates to a non-numeric value.
         """
-        for parameter in self.all():
-            if parameter.expression is not None:
+        expression_parameters = [p for p in self.all() if p.expression is not None]
+        # Expressions can reference parameters which are themselves defined by an expression
+        # (in any declaration order), therefore evaluate until the values are settled.
+        for _ in range(max(len(expression_parameters), 1)):
+            settled = True
+            for parameter in expression_parameters:
                 value = self._evaluator(parameter.transformed_expression)
                 if not isinstance(value, (int, float)):
                     raise ValueError(
                         f"Expression '{parameter.expression}' of parameter '{parameter.label}' "
                         f"evaluates to non numeric value '{value}'."
                     )
+                if not nan_or_equal(parameter.value, value):
+                    settled = False
                 parameter.value = value
+            if settled:
+                break
 
     def get_label_value_and_bounds_arrays(
         self, exclude_non_vary: bool = False
